@@ -127,6 +127,9 @@ func (l *library) drawModel(r *rng.R) drawnModel {
 		if r.Chance(1, 5) {
 			corpus.NameNodes(r, e)
 		}
+		if r.Chance(1, 5) {
+			corpus.Reorder(r, e)
+		}
 		return fromEntry(e)
 	case x < 17 || len(l.samples) == 0:
 		e := corpus.DrawDAG(r)
@@ -138,6 +141,9 @@ func (l *library) drawModel(r *rng.R) drawnModel {
 		}
 		if r.Chance(1, 3) {
 			corpus.NameNodes(r, e)
+		}
+		if r.Chance(1, 4) {
+			corpus.Reorder(r, e)
 		}
 		return fromEntry(e)
 	default:
